@@ -1,128 +1,31 @@
 // Package svcworld is the shared fixture for the service-level checks (C29, C31, C32, C45):
-// deterministic keys and IDs, a recording event log, and fakes supplied through the *exported*
-// interfaces of the real service objects. Nothing here is random: every key/ID is derived from
-// the SHA-256 of a label.
+// deterministic keys and IDs, a recording event log, and real service objects with fakes supplied
+// through their *exported* interfaces. Nothing here is random: every key/ID is derived from the
+// SHA-256 of a label. The overlay-free part (keys, IDs, recorder) lives in svcworld/det.
+//
+// A check importing this package needs the overlay lines of worlds/svcworld/overlay.inc
+// (engine method-entry hook used as a pure recorder).
 package svcworld
 
 import (
 	"crypto/ecdsa"
-	"crypto/sha256"
-	"fmt"
-	"sort"
-	"strings"
-	"sync"
 
 	"github.com/nspcc-dev/neo-go/pkg/crypto/keys"
+	"github.com/nspcc-dev/neofs-node/verif/worlds/svcworld/det"
 	cid "github.com/nspcc-dev/neofs-sdk-go/container/id"
 	oid "github.com/nspcc-dev/neofs-sdk-go/object/id"
 	"github.com/nspcc-dev/neofs-sdk-go/user"
 )
 
-// Key returns the deterministic private key for a label.
-func Key(label string) *keys.PrivateKey {
-	for i := 0; ; i++ {
-		h := sha256.Sum256([]byte(fmt.Sprintf("verif-svcworld-key:%s:%d", label, i)))
-		k, err := keys.NewPrivateKeyFromBytes(h[:])
-		if err == nil {
-			return k
-		}
-	}
-}
+type (
+	Recorder = det.Recorder
+	Event    = det.Event
+)
 
-// ECDSA returns the deterministic ECDSA private key for a label.
-func ECDSA(label string) ecdsa.PrivateKey { return Key(label).PrivateKey }
-
-// Pub returns the compressed public key bytes for a label.
-func Pub(label string) []byte { return Key(label).PublicKey().Bytes() }
-
-// UserOf returns the user ID of the labelled key.
-func UserOf(label string) user.ID { return user.NewFromECDSAPublicKey(Key(label).PrivateKey.PublicKey) }
-
-// Signer returns the user signer (ECDSA_DETERMINISTIC_SHA256, deterministic) of the labelled key.
-func Signer(label string) user.Signer { return user.NewAutoIDSignerRFC6979(ECDSA(label)) }
-
-// CID returns the deterministic container ID for a label.
-func CID(label string) cid.ID { return cid.ID(sha256.Sum256([]byte("verif-svcworld-cid:" + label))) }
-
-// OID returns the deterministic object ID for a label.
-func OID(label string) oid.ID { return oid.ID(sha256.Sum256([]byte("verif-svcworld-oid:" + label))) }
-
-// Event is one recorded interaction with a dependency.
-type Event struct {
-	Kind   string // "storage", "net", "chain", "handler", "state", ...
-	Detail string
-}
-
-// Recorder is a thread-safe, ordered event log.
-type Recorder struct {
-	mu sync.Mutex
-	ev []Event
-}
-
-func (r *Recorder) Add(kind, format string, a ...any) {
-	if r == nil {
-		return
-	}
-	r.mu.Lock()
-	r.ev = append(r.ev, Event{kind, fmt.Sprintf(format, a...)})
-	r.mu.Unlock()
-}
-
-func (r *Recorder) Reset() {
-	r.mu.Lock()
-	r.ev = nil
-	r.mu.Unlock()
-}
-
-func (r *Recorder) Events() []Event {
-	r.mu.Lock()
-	defer r.mu.Unlock()
-	return append([]Event(nil), r.ev...)
-}
-
-// Count returns the number of events of the given kinds (all if none given).
-func (r *Recorder) Count(kinds ...string) int {
-	n := 0
-	for _, e := range r.Events() {
-		if len(kinds) == 0 {
-			n++
-			continue
-		}
-		for _, k := range kinds {
-			if e.Kind == k {
-				n++
-			}
-		}
-	}
-	return n
-}
-
-// Of returns the details of the events of the given kinds, in order.
-func (r *Recorder) Of(kinds ...string) []string {
-	var res []string
-	for _, e := range r.Events() {
-		for _, k := range kinds {
-			if e.Kind == k {
-				res = append(res, e.Kind+":"+e.Detail)
-			}
-		}
-	}
-	return res
-}
-
-// Names returns the sorted distinct "kind:firstword" classes of the recorded events.
-func (r *Recorder) Names(kinds ...string) []string {
-	m := map[string]bool{}
-	for _, s := range r.Of(kinds...) {
-		if i := strings.IndexAny(s, " ("); i > 0 {
-			s = s[:i]
-		}
-		m[s] = true
-	}
-	res := make([]string, 0, len(m))
-	for k := range m {
-		res = append(res, k)
-	}
-	sort.Strings(res)
-	return res
-}
+func Key(label string) *keys.PrivateKey   { return det.Key(label) }
+func ECDSA(label string) ecdsa.PrivateKey { return det.ECDSA(label) }
+func Pub(label string) []byte             { return det.Pub(label) }
+func UserOf(label string) user.ID         { return det.UserOf(label) }
+func Signer(label string) user.Signer     { return det.Signer(label) }
+func CID(label string) cid.ID             { return det.CID(label) }
+func OID(label string) oid.ID             { return det.OID(label) }
